@@ -150,6 +150,40 @@ def observe_strings(task: dict) -> dict:
             if esc:
                 out["escapes"].append({"field": tag, "string": s, "opened": esc[:4]})
 
+        opt_acc, opt_seen = None, []
+        if task.get("optimized"):
+            import subprocess
+            import sys
+            child = (
+                "import sys, json\n"
+                "from pathlib import Path\n"
+                "from harness import rustext\n"
+                "rustext.SO.exists() and rustext.preload()\n"
+                "from sedpack.io.dataset_filler import _DatasetFillerContext\n"
+                "from sedpack.io.file_info import FileInfo\n"
+                "from sedpack.io.shard_file_metadata import ShardListInfo, ShardsList\n"
+                "from harness import dsreal\n"
+                "root = Path(sys.argv[1]); struct = dsreal.structure('fb', '', 2, ('md5',))\n"
+                "def acc(kind, s):\n"
+                "    try:\n"
+                "        if kind == 'shard': FileInfo(file_path=s)\n"
+                "        elif kind == 'child': ShardListInfo(shard_list_info_file=FileInfo(file_path=(s + '/' if s else '') + 'shards_list.json'))\n"
+                "        elif kind == 'self': ShardsList(relative_path_self=Path((s + '/' if s else '') + 'shards_list.json'))\n"
+                "        elif kind == 'filler': _DatasetFillerContext(root, struct, Path(s))\n"
+                "        return True\n"
+                "    except Exception:\n"
+                "        return False\n"
+                "strings = json.load(sys.stdin)\n"
+                "print('RESULT' + json.dumps([{k: acc(k, s) for k in ('shard', 'child', 'self', 'filler')} for s in strings]))\n")
+            rendered = [render(base, a, comps) for (a, comps) in task["strings"]]
+            pr = subprocess.run([sys.executable, "-O", "-c", child, str(root)], input=json.dumps(rendered),
+                                capture_output=True, text=True, timeout=1200,
+                                env=dict(os.environ, TF_CPP_MIN_LOG_LEVEL="3"))
+            line = next((ln for ln in pr.stdout.splitlines() if ln.startswith("RESULT")), None)
+            if pr.returncode != 0 or line is None:
+                raise RuntimeError("the python -O child failed:\n" + (pr.stdout + pr.stderr)[-1500:])
+            opt_acc = json.loads(line[len("RESULT"):])
+            restore()
         for (a, comps) in task["strings"]:
             s = render(base, a, comps)
             pp = Path(s) if s else Path("")
@@ -166,6 +200,11 @@ def observe_strings(task: dict) -> dict:
                 target = "/" + target.lstrip("/")
             inside = target == str(root) or target.startswith(str(root) + "/")
             acc = {k: accepted_by(k, s) for k in ("shard", "child", "self", "filler")}
+            if opt_acc is not None:
+                # the same four guards evaluated by an interpreter started with -O (assert statements stripped)
+                for k in ("shard", "child", "self", "filler"):
+                    acc[k + " (python -O)"] = opt_acc[len(opt_seen)][k]
+                opt_seen.append(s)
             for k, v in acc.items():
                 out["obs"].append({"abs": a, "comps": list(comps), "parts": mparts, "isabs": isabs, "inside": inside,
                                    "accepted": v, "field": k, "string": s})
@@ -254,6 +293,10 @@ def run(ctx: Ctx) -> None:
                if not (a == 0 and n > 0 and c[0] == "")]
     nw = 14
     tasks = [{"strings": strings[i::nw], "plant": True} for i in range(nw)]
+    # two of the workers also evaluate the guards in an interpreter started with -O: how the interpreter was launched is
+    # part of the environment, and a guard must not be an assert statement
+    for t in tasks[:2] if ctx.quick else tasks[:6]:
+        t["optimized"] = True
     try:
         outs = H.run_histories(tasks, fn=observe_strings)
     finally:
